@@ -65,20 +65,99 @@ def from_json(x):
 
 
 # ------------------------------------------------------------------ job execution
+class _JobBudget(BaseException):
+    pass
+
+
+def _alarm(signum, frame):
+    raise _JobBudget()
+
+
 def _run_job(args):
     modname, job, tier = args
     t0 = time.time()
+    import signal
+    budget = int(os.environ.get("VERIF_JOB_S", "420" if tier == "quick" else "3000"))
+    try:
+        signal.signal(signal.SIGALRM, _alarm)
+        signal.alarm(budget)
+    except (ValueError, AttributeError):
+        pass
     try:
         mod = importlib.import_module(modname)
         res = mod.run(dict(job), tier)
         res.setdefault("status", "held")
+    except _JobBudget:
+        # wall budget of one job exhausted (typically a non-linear model search on broken code): never success
+        res = {"status": "inconclusive", "obligations": 1, "discharged": 0, "inconclusive": 1, "reach": True,
+               "sample": {"label": f"job stopped after {budget} s (wall budget)", "verdict": "unknown"}}
     except BaseException as e:  # noqa: BLE001 — ShimGap/Budget are BaseExceptions by design
         res = {"status": "error", "detail": f"{type(e).__name__}: {e}",
                "trace": traceback.format_exc()[-3000:]}
+    try:
+        signal.alarm(0)
+    except (ValueError, AttributeError):
+        pass
     res["ob"] = job["ob"]
     res["cfg"] = job.get("cfg", {})
     res["wall_s"] = round(time.time() - t0, 3)
     return res
+
+
+def _child(conn, args):
+    try:
+        conn.send(_run_job(args))
+    except BaseException as e:  # noqa: BLE001
+        try:
+            conn.send({"status": "error", "detail": f"worker failed: {type(e).__name__}: {e}", "ob": args[1]["ob"],
+                       "cfg": args[1].get("cfg", {})})
+        except Exception:  # noqa: BLE001
+            pass
+    finally:
+        conn.close()
+
+
+def _schedule(modname, jobs, tier, procs):
+    """one process per job with a HARD wall limit: z3 does not always honour its own timeout (non-linear root
+    isolation can run for many minutes), so a job that overruns is killed and reported inconclusive - never success"""
+    ctx = mp.get_context("fork")
+    soft = int(os.environ.get("VERIF_JOB_S", "420" if tier == "quick" else "3000"))
+    hard = soft + 120
+    pending = list(enumerate(jobs))
+    running = {}
+    results = [None] * len(jobs)
+    while pending or running:
+        while pending and len(running) < procs:
+            i, job = pending.pop(0)
+            parent, child = ctx.Pipe(duplex=False)
+            p = ctx.Process(target=_child, args=(child, (modname, job, tier)), daemon=True)
+            p.start()
+            child.close()
+            running[i] = (p, parent, time.time(), job)
+        time.sleep(0.05)
+        for i in list(running):
+            p, conn, t0, job = running[i]
+            if conn.poll():
+                try:
+                    results[i] = conn.recv()
+                except EOFError:
+                    results[i] = {"status": "error", "detail": "worker died", "ob": job["ob"], "cfg": job.get("cfg", {})}
+                p.join(5)
+                conn.close()
+                del running[i]
+            elif not p.is_alive():
+                results[i] = {"status": "error", "detail": f"worker exited with code {p.exitcode}", "ob": job["ob"], "cfg": job.get("cfg", {})}
+                conn.close()
+                del running[i]
+            elif time.time() - t0 > hard:
+                p.kill()
+                p.join(5)
+                conn.close()
+                results[i] = {"status": "inconclusive", "obligations": 1, "discharged": 0, "inconclusive": 1, "reach": True,
+                              "ob": job["ob"], "cfg": job.get("cfg", {}), "wall_s": round(time.time() - t0, 1),
+                              "sample": {"label": f"job killed after {hard} s (solver did not return)", "verdict": "unknown"}}
+                del running[i]
+    return results
 
 
 def load_known():
@@ -100,12 +179,7 @@ def run_property(modname, tier, seed=0, only=None, procs=None):
     rnd.shuffle(order)  # VERIF_SEED only changes scheduling order
     jobs = [jobs[i] for i in order]
     procs = procs or min(int(os.environ.get("VERIF_PROCS", "16")), max(1, len(jobs)))
-    if procs > 1:
-        ctx = mp.get_context("fork")
-        with ctx.Pool(procs, maxtasksperchild=8) as pool:
-            results = pool.map(_run_job, [(modname, j, tier) for j in jobs], chunksize=1)
-    else:
-        results = [_run_job((modname, j, tier)) for j in jobs]
+    results = _schedule(modname, jobs, tier, procs)
     return finish(mod, pid, tier, seed, results, time.time() - t0)
 
 
@@ -297,7 +371,7 @@ class Tally:
         return r
 
     # one solver-decided obligation at the end of a path
-    def decide(self, ex, neg_prop, assumptions=(), on_sat=None, timeout_ms=None, label=None, robust=None, with_side=True):
+    def decide(self, ex, neg_prop, assumptions=(), on_sat=None, timeout_ms=None, label=None, robust=None, with_side=True, hints=False):
         """neg_prop: exact negation of the property (decides held / not held).  robust: optional stronger
         negation (violation by a margin) used only to pick a counterexample that replays in float64."""
         import z3
@@ -309,7 +383,15 @@ class Tally:
                 r0, _ = ex.query(*assumptions, timeout_ms=timeout_ms, with_side=with_side)
                 if r0 == z3.sat:
                     self.reach = True
-        r, m = ex.query(*assumptions, neg_prop, timeout_ms=timeout_ms, with_side=with_side)
+        r, m = None, None
+        if hints:
+            # cheap model search first (z3's non-linear engine does not always honour its timeout on satisfiable instances)
+            m = _hint_model(ex, list(assumptions) + [neg_prop], with_side, tries=150)
+            if m is not None:
+                r = z3.sat
+                self.reach = True
+        if r is None:
+            r, m = ex.query(*assumptions, neg_prop, timeout_ms=timeout_ms, with_side=with_side)
         if self.sample is None:
             s = str(z3.simplify(neg_prop) if not isinstance(neg_prop, bool) else neg_prop)
             self.sample = {"label": label, "negated_property": s[:600],
@@ -318,8 +400,14 @@ class Tally:
             self.discharged += 1
             return "unsat"
         if r == z3.unknown:
-            self.inconclusive += 1
-            return "unknown"
+            # model search fallback: the solver gave up (non-linear search); try a palette of small rational assignments and
+            # let the rewriter evaluate path condition, side conditions, assumptions and the negated property under each.
+            # A hit is a genuine model (it is replayed like any other); a miss leaves the obligation inconclusive.
+            m = _hint_model(ex, list(assumptions) + [neg_prop], with_side)
+            if m is None:
+                self.inconclusive += 1
+                return "unknown"
+            r = z3.sat
         if robust is not None:
             r2, m2 = ex.query(*assumptions, robust, timeout_ms=timeout_ms, with_side=with_side)
             if r2 == z3.sat:
@@ -376,3 +464,45 @@ def _probe_witness(ex, assumptions):
     except Exception:  # noqa: BLE001
         return False
     return False
+
+
+class _SubstModel:
+    """stands in for a z3 model: evaluation by substitution of a total assignment"""
+
+    def __init__(self, subs):
+        self.subs = subs
+
+    def eval(self, t, model_completion=True):
+        import z3
+        return z3.simplify(z3.substitute(t, *self.subs))
+
+
+_PALETTE = [(0, 1), (1, 1), (-1, 1), (2, 1), (-2, 1), (1, 2), (-1, 2), (3, 2), (3, 1), (-3, 2), (1, 4), (5, 2), (-1, 4), (4, 1), (1, 3)]
+
+
+def _hint_model(ex, formulas, with_side=True, tries=400, seed=12345):
+    import random
+    import z3
+    try:
+        conj = list(ex.pc) + list(ex.defs) + (list(ex.side) if with_side else []) + list(getattr(ex, "facts", [])) + list(formulas)
+        consts = sorted(_free_consts(conj), key=str)
+        if not consts or len(consts) > 80:
+            return None
+        rnd = random.Random(seed)
+        for _ in range(tries):
+            subs = []
+            for c in consts:
+                if z3.is_bool(c):
+                    subs.append((c, z3.BoolVal(rnd.random() < 0.3)))
+                elif z3.is_int(c):
+                    subs.append((c, z3.IntVal(rnd.choice([0, 1, 2]))))
+                elif z3.is_real(c):
+                    n, d = rnd.choice(_PALETTE)
+                    subs.append((c, z3.Q(n, d)))
+                else:
+                    return None
+            if all(z3.is_true(z3.simplify(z3.substitute(f, *subs))) for f in conj):
+                return _SubstModel(subs)
+    except Exception:  # noqa: BLE001
+        return None
+    return None
